@@ -1178,7 +1178,8 @@ class PulseSequence:
 
 def _join_equal_segments(pulse: PulseSequence) -> Sequence[Coefficients]:
     """Join potentially equal consecutive segments of *pulse*'s Hamiltonian."""
-    equal_ind = (np.diff(pulse.c_coeffs) == 0).all(axis=0).nonzero()[0]
+    equal_ind = np.logical_and((np.diff(pulse.c_coeffs) == 0).all(axis=0),
+                               (np.diff(pulse.n_coeffs) == 0).all(axis=0)).nonzero()[0]
 
     if equal_ind.size > 0:
         c_coeffs = np.delete(pulse.c_coeffs, equal_ind, axis=1)
